@@ -138,13 +138,13 @@ def run(tier, seed):
     labels = {m[4]: (m[1], m[2].split('=')[0].split(',')[0].split('.')[-1] if m[2] != 'seed' else 'seed', m[2], m[3]) for m in fam if m[0] in keptset}
     text3 = '\n'.join(t for _, t in kept) + '\n'
     do_source('S3-mutants', text3, sorted(labels), [(2000, 2050)] + ([(2000, 2038), (2010, 2030)] if thorough else [(2010, 2030)]),
-              labels=labels, arduino=({'step': 3600, 'win': 3 * 3600} if thorough else None))
+              labels=labels, arduino=({'step': 3600, 'win': 3 * 3600} if thorough else {'step': 4 * 3600, 'win': 2 * 3600}))
     samples += [{'mutant': labels[z][2], 'seed': labels[z][0], 'source_text': labels[z][3]} for z in sorted(labels)[100:103]]
     rep.coverage.update(cov)
     rep.assumptions += [
         'S1 = /usr/share/zoneinfo/tzdata.zi (2025b) expanded to the classic layout; %z spelled out numerically; zones whose %z needs two DST spellings are dropped and listed; the normaliser is checked on every run against zic on the original file from 2000 on',
         'python language: InlineGenerator maps interpreted by ZoneSpecifier, transitions of every year compared with the zic table as piecewise-constant functions (exact, no sampling)',
-        'arduino language: generated zone_*.cpp compiled under a private namespace against /repo/src and swept by the C01/C02 driver (S1: %s; S3: thorough tier only)' % ('every minute' if thorough else 'hourly grid + every minute within 3 h of each zic transition + second probes'),
+        'arduino language: generated zone_*.cpp compiled under a private namespace against /repo/src and swept by the C01/C02 driver (S1: %s; S3: %s)' % ('every minute' if thorough else 'hourly grid + every minute within 3 h of each zic transition + second probes', 'hourly grid + 3 h windows' if thorough else '4 h grid + every minute within 2 h of each zic transition + second probes'),
         'a zone whose notable_* comment mentions truncation/granularity is exempt from the equality check, and only such zones; a source on which the compiler raises counts as not accepted',
         'mutants rejected by zic are outside the quantifier and counted',
     ]
